@@ -131,7 +131,14 @@ func c07EveryIteration(body Edge, header *ssa.BasicBlock, ins ...ssa.Instruction
 	if len(ins) == 0 {
 		return false
 	}
-	return !reach(body.To, 0, header.Instrs[0], newCut().Instr(ins...))
+	return !c07IterSkips(body, header, newCut().Instr(ins...))
+}
+
+// c07IterSkips: some feasible path from the loop body's entry reaches the next
+// iteration without passing the cut (branches that contradict earlier tests of
+// the same value on the path are not followed).
+func c07IterSkips(body Edge, header *ssa.BasicBlock, ct *cut) bool {
+	return c05ReachF(body.To, 0, body.From, header.Instrs[0], ct, c05EdgeFacts(body), nil)
 }
 
 // ---------------------------------------------------------------- R1: index
@@ -457,7 +464,7 @@ func c07R1Remove(c *Ctx) {
 			inLoopN++
 		}
 	}
-	okD := inLoopN > 0 && !reach(body.To, 0, loop.Header.Instrs[0], uc)
+	okD := inLoopN > 0 && !c07IterSkips(body, loop.Header, uc)
 	c.Check(R, tn+"|unlink-every-iteration", blockPos(body.To), okD,
 		ifelse(okD, "predecessors[successorKey].Delete(key(node)) runs in every iteration", "an iteration can finish without deleting key(node) from predecessors[successorKey]: Predecessors(successor) keeps reporting the removed node"))
 	// delete(m.predecessors, k): only the current key, only when its set is empty — in Remove or in a helper it calls
@@ -590,7 +597,7 @@ func c07R1Predecessors(c *Ctx) {
 			}
 		}
 	}
-	ok := app != nil && okElems && !reach(body.To, 0, loop.Header.Instrs[0], ct)
+	ok := app != nil && okElems && !c07IterSkips(body, loop.Header, ct)
 	c.Check(R, tn+"|one-result-per-predecessor", blockPos(body.To), ok,
 		ifelse(ok, "every iteration appends exactly nodes[k] for the current predecessor key", "an iteration can skip a predecessor, append something other than nodes[k], or append more than one element (omission / extra / duplicate)"))
 	if app == nil {
@@ -812,7 +819,7 @@ func c07R2Push(c *Ctx) {
 			ifelse(ok, "every path to a nil error passes graph.Index(expected)"+ifelse(x.skip != "", " (discarded unnamed content excepted)", ""), "Push can succeed without indexing the pushed node: Predecessors of its successors omit it"))
 		okErr, detail := true, ""
 		for _, h := range hits {
-			r := ErrFlow(h.call, ErrFlowOpts{})
+			r := c05ErrFlow(h.call, ErrFlowOpts{})
 			if !r.OK {
 				okErr, detail = false, r.Detail
 			} else if detail == "" {
@@ -823,7 +830,7 @@ func c07R2Push(c *Ctx) {
 					okErr, detail = false, "the helper "+FnName(e.Fn)+" that indexes has its error discarded at "+c.P.Pos(e.Call.Pos())
 					continue
 				}
-				if r := ErrFlow(e.Call, ErrFlowOpts{Tolerated: ifelseS(x.skip != "", []string{x.skip}, nil)}); !r.OK {
+				if r := c05ErrFlow(e.Call, ErrFlowOpts{Tolerated: ifelseS(x.skip != "", []string{x.skip}, nil)}); !r.OK {
 					okErr, detail = false, r.Detail
 				}
 			}
@@ -990,7 +997,7 @@ func c07R2Load(c *Ctx) {
 				inLoop = append(inLoop, in)
 			}
 		}
-		ok := (len(ct.instrs) > 0 || len(ct.edges) > 0) && !reach(body.To, 0, loop.Header.Instrs[0], ct)
+		ok := (len(ct.instrs) > 0 || len(ct.edges) > 0) && !c07IterSkips(body, loop.Header, ct)
 		c.Check(R, tn+"|reindex-every-manifest", blockPos(loop.Header), ok,
 			ifelse(ok, "every iteration over index.Manifests calls graph.IndexAll for that entry (or returns an error)", "an entry of index.Manifests can be skipped when the layout is (re)opened: its edges are missing from Predecessors after reopen"))
 		okErr, detail := true, "the IndexAll error reaches the caller"
@@ -1006,14 +1013,14 @@ func c07R2Load(c *Ctx) {
 				continue
 			}
 			seen[in] = true
-			if r := ErrFlow(in.(ssa.CallInstruction), ErrFlowOpts{}); !r.OK {
+			if r := c05ErrFlow(in.(ssa.CallInstruction), ErrFlowOpts{}); !r.OK {
 				okErr, detail = false, r.Detail
 			}
 		}
 		for in := range loop.Blocks {
 			for _, x := range in.Instrs {
 				if call, isCall := x.(*ssa.Call); isCall && c05Helper(call, fn) != nil && ErrOf(call) != nil && !seen[x] {
-					if r := ErrFlow(call, ErrFlowOpts{}); !r.OK {
+					if r := c05ErrFlow(call, ErrFlowOpts{}); !r.OK {
 						okErr, detail = false, r.Detail
 					}
 				}
@@ -1145,7 +1152,7 @@ func c07R2IndexWrapper(c *Ctx) {
 				stepAl[a] = true
 			}
 		}
-		if r := ErrFlow(st, ErrFlowOpts{}); !r.OK {
+		if r := c05ErrFlow(st, ErrFlowOpts{}); !r.OK {
 			ok, detail = false, "the index step's error is not returned: "+r.Detail
 		}
 	}
@@ -1192,7 +1199,7 @@ func c07R2IndexAll(c *Ctx) {
 	a := idxCall.Common().Args
 	okD := desc != nil && c05ParamOf(a[len(a)-1]) == desc
 	S := ResultOf(idxCall, 0)
-	r := ErrFlow(idxCall, ErrFlowOpts{Tolerated: []string{"~/errdef.ErrNotFound"}})
+	r := c05ErrFlow(idxCall, ErrFlowOpts{Tolerated: []string{"~/errdef.ErrNotFound"}})
 	c.Check(R, tn+"|skips-only-not-found", idxCall.Pos(), okD && r.OK, ifelse(okD && r.OK, "the visited node is indexed; only ErrNotFound is skipped: "+r.How, "an indexing failure other than ErrNotFound is swallowed during (re)load: "+r.Detail))
 	var gos []ssa.CallInstruction
 	for _, g := range CallsTo(T, nGo) {
@@ -1229,7 +1236,7 @@ func c07R2IndexAll(c *Ctx) {
 	c.Check(R, tn+"|descends-into-all-successors", T.Pos(), ok,
 		ifelse(ok, "every nil return follows the dispatch over the successors index returned (or: no successors / already visited / not found)", "the traversal can report success without descending into the successors of an indexed node: deeper edges are missing after reopen or GC"))
 	for _, g := range gos {
-		rr := ErrFlow(g, ErrFlowOpts{})
+		rr := c05ErrFlow(g, ErrFlowOpts{})
 		c.Check(R, tn+"|dispatch-error-returned", g.Pos(), rr.OK, rr.How+rr.Detail)
 	}
 }
